@@ -6,6 +6,22 @@
 From Coupe Require Import Lib.Prelude Model.ArcSwap Proofs.ArcSwapCut Proofs.ArcSwapProto.
 Open Scope Z_scope.
 
+Ltac break_hyp H :=
+  match type of H with
+  | context [match ?x with _ => _ end] =>
+      match x with
+      | decide _ _ _ _ _ _ => fail 1
+      | _ => destruct x eqn:?
+      end
+  end.
+Ltac wstep_inv H :=
+  unfold wstep in H;
+  repeat (break_hyp H; try discriminate H).
+
+Section WithW.
+Context {W : wops}.
+
+
 (* ------------------------------------------------------------- list facts *)
 
 Lemma pid_nth_opt l i x : nth_opt l i = Some x -> pid l i = x.
@@ -85,26 +101,14 @@ Lemma decide_spec cf tmax w v ip bt bg w' : decide cf tmax w v ip (bt, bg) = Som
   (w_pc w' = PUnlock v UNoMove \/
    (w_pc w' = PStore v ip bt bg /\ 0 < bg /\
     exists wv pwt mx, nth_opt (cf_vw cf) v = Some wv /\ nth_opt (w_pw w) bt = Some pwt /\
-                      nth_opt tmax bt = Some mx /\ wv + pwt <= mx)).
+                      nth_opt tmax bt = Some mx /\ w_ltb mx (w_add wv pwt) = false)).
 Proof.
   unfold decide. destruct (Z.leb_spec bg 0).
   - intros [= <-]. cbn. auto.
   - destruct (nth_opt (cf_vw cf) v) as [wv|], (nth_opt (w_pw w) bt) as [pwt|] eqn:E2, (nth_opt tmax bt) as [mx|]; try discriminate.
-    destruct (Z.ltb_spec mx (wv + pwt)); intros [= <-]; cbn; repeat split; auto.
+    destruct (w_ltb mx (w_add wv pwt)) eqn:Elt; intros [= <-]; cbn; repeat split; auto.
     right. repeat split; auto. exists wv, pwt, mx. auto.
 Qed.
-
-Ltac break_hyp H :=
-  match type of H with
-  | context [match ?x with _ => _ end] =>
-      match x with
-      | decide _ _ _ _ _ _ => fail 1
-      | _ => destruct x eqn:?
-      end
-  end.
-Ltac wstep_inv H :=
-  unfold wstep in H;
-  repeat (break_hyp H; try discriminate H).
 
 Section Local.
 Variable cf : config.
@@ -133,8 +137,8 @@ Lemma wstep_store tmax locks part w locks' part' w' v ip tg gn :
   part' = set_nth part v tg /\ (v < length part)%nat /\ wgain w' = wgain w + gn /\ wmoves w' = wmoves w + 1 /\
   w_pc w' = PUnlock v UMoved /\
   exists wv a b, nth_opt (cf_vw cf) v = Some wv /\ nth_opt (w_pw w) ip = Some a /\
-    nth_opt (set_nth (w_pw w) ip (a - wv)) tg = Some b /\
-    w_pw w' = set_nth (set_nth (w_pw w) ip (a - wv)) tg (b + wv).
+    nth_opt (set_nth (w_pw w) ip (w_sub a wv)) tg = Some b /\
+    w_pw w' = set_nth (set_nth (w_pw w) ip (w_sub a wv)) tg (w_add b wv).
 Proof.
   intros H Hpc. unfold wstep in H. rewrite Hpc in H.
   destruct (nth_opt (cf_vw cf) v) as [wv|]; [|discriminate].
@@ -418,7 +422,7 @@ Qed.
 Lemma init_ginv st0 : init_state cf p0 = Some st0 -> ginv st0.
 Proof.
   unfold init_state. destruct (thread_max cf _) as [tm|]; [|discriminate]. intros [= <-].
-  destruct (init_workers_sums cf (loads (cf_vw cf) p0 (cf_k cf))) as [S1 S2].
+  destruct (init_workers_sums cf (wloads (cf_vw cf) p0 (cf_k cf))) as [S1 S2].
   split; cbn [g_locks g_part g_ws g_md md_passes md_zero md_gain md_moves]; auto.
   - apply proto_idle. intros t w Hn. apply init_workers_spec in Hn as (Hpc & _). unfold wphase. now rewrite Hpc.
   - intros t w Hn. apply init_workers_spec in Hn as (Hpc & _). apply gain_ok_other. now rewrite Hpc.
@@ -431,3 +435,5 @@ Proof.
     clear. induction p0 as [|a l IH]; cbn [relabelled]; [reflexivity|]. rewrite Nat.eqb_refl. lia.
 Qed.
 End Global.
+
+End WithW.
